@@ -387,3 +387,51 @@ def check_memo_keys(model: RepoModel, rep, RID: str, rels: Iterable[str], declar
                 else:
                     rep.holds(RID, key, rel, st.lineno, f"key `{norm(kdef)[:80]}` covers {sorted(reads)}")
     return n
+
+
+def check_attr_reset_granularity(model: RepoModel, rep, RID: str, rels: Iterable[str]) -> int:
+    """G5: state kept on the object (`self.A`) that a method reads AFTER one of its loops -- to persist or return what the iterations
+    gathered -- must not be re-created inside that loop: `self.A = <fresh object>` per iteration resets it at the wrong granularity and
+    only what the last iteration gathered survives.  Instances: every `self.A = <constructor call or empty literal>` inside a loop;
+    it holds when `self.A` is not read after the loop in that method (a genuine per-iteration budget/scratch object)."""
+    n = 0
+    for rel in rels:
+        mod = model.module(rel)
+        for f in mod.all_funcs():
+            if f.cls is None:
+                continue
+            for L in walk_no_nested(f.node):
+                if not isinstance(L, (ast.For, ast.While)):
+                    continue
+                for st in ast.walk(L):
+                    if not isinstance(st, ast.Assign):
+                        continue
+                    for tg in st.targets:
+                        if not (isinstance(tg, ast.Attribute) and isinstance(tg.value, ast.Name) and tg.value.id == "self"):
+                            continue
+                        v = st.value
+                        fresh = _is_empty_collection(v) or (isinstance(v, ast.Call) and isinstance(v.func, ast.Name) and v.func.id[:1].isupper()
+                                                            and not any(isinstance(x, ast.Attribute) and x.attr == tg.attr for x in ast.walk(v)))
+                        if not fresh:
+                            continue
+                        n += 1
+                        ordinal = sorted(x.lineno for x in walk_no_nested(f.node) if isinstance(x, (ast.For, ast.While))).index(L.lineno) + 1
+                        key = f"{rel}::{f.qualname}::`self.{tg.attr} = {norm(v)[:40]}` inside loop #{ordinal}::not what the method hands on after the loop"
+                        after = [x for x in walk_no_nested(f.node) if isinstance(x, ast.Attribute) and x.attr == tg.attr and isinstance(x.value, ast.Name)
+                                 and x.value.id == "self" and isinstance(x.ctx, ast.Load) and x.lineno > L.end_lineno]
+                        if after:
+                            rep.violation(RID, key, rel, st.lineno,
+                                          f"{f.qualname} re-creates `self.{tg.attr}` in every iteration of the loop at line {L.lineno} and reads it after the "
+                                          f"loop (line {after[0].lineno}, `{norm(enclosing_stmt_text(f.node, after[0]))[:90]}`): what the earlier "
+                                          f"iterations gathered there is thrown away, only the last iteration's content is handed on")
+                        else:
+                            rep.holds(RID, key, rel, st.lineno, "per-iteration object: not read after the loop in this method")
+    return n
+
+
+def enclosing_stmt_text(fnode, node):
+    enc = enclosing_map(fnode)
+    cur = node
+    while id(cur) in enc and not isinstance(cur, ast.stmt):
+        cur = enc[id(cur)]
+    return cur
